@@ -8,7 +8,9 @@
 (* each newer dimension (/dev/null, a /dev/.. spelling, a blank command line  *)
 (* in the three forms, the directory / skipped / assignment operands; C13: a  *)
 (* payload with an interior newline and one with CR LF in it, to stdout, a    *)
-(* file and a command); Rich = 1: all of them.  C13 runs take every newline   *)
+(* file and a command, a block appended to a file; C12: a file name in a       *)
+(* directory that does not exist, written and read); Rich = 1: all of them.   *)
+(* C13 runs take every newline                                                *)
 (* output mode in NLs.                                                        *)
 EXTENDS IOStreams, Json
 
@@ -54,11 +56,14 @@ SandboxNew ==
          MkAct("getline_file", "/dev/null", "lit"), MkAct("getline_file", "f1", "devdd"), MkAct("operand", "f1", "dotdot"),
          MkAct("operand", "f2", "lit"), MkAct("operand", "d1", "lit"), MkAct("operand", "", "lit"), MkAct("operand", "v=1", "lit"),
          MkAct("system", "blank", "lit"), MkAct("getline_cmd", "empty", "lit"), MkAct("system", "spcat", "lit"),
+         [op |-> "print", dest |-> "file", name |-> "nd/g1", mode |-> "append", form |-> "print", cls |-> "jailed"],
+         MkAct("getline_file", "nd/g1", "lit"),
          [op |-> "print", dest |-> "cmd", name |-> "blank", mode |-> "pipe", form |-> "print", cls |-> "lit"] }
 DeliveryNew ==
   IF Rich = 1 THEN ShapedPrints(MFiles, Shapes \ {"plain"})
   ELSE { MkPrint("stdout", "", "none", "printf", "mid"), MkPrint("stdout", "", "none", "print", "crlf"), MkPrint("file", "f2", "trunc", "printf", "mid"),
-         MkPrint("file", "f1", "append", "print", "midnl"), MkPrint("cmd", "cat", "pipe", "printf", "mid"), MkPrint("file", "/dev/stderr", "trunc", "printf", "nl") }
+         MkPrint("file", "f1", "append", "print", "midnl"), MkPrint("cmd", "cat", "pipe", "printf", "mid"), MkPrint("file", "/dev/stderr", "trunc", "printf", "nl"),
+         MkPrint("file", "f1", "append", "printf", "block") }
 
 TheMenu == IF Sandbox THEN Menu(MFiles, {"lit"}, {"print"}) \cup SandboxNew
            ELSE Menu(MFiles, {"lit"}, {"print", "printf"}) \cup ExtraMenu({"lit"}) \cup DeliveryNew
@@ -114,8 +119,8 @@ AttemptIsDenied ==
       starts == act.op \in {"system", "getline_cmd"} \/ (act.op = "print" /\ act.dest = "cmd")
       \* whatever the name is and however it is spelled: any regular file, /dev/null, a directory, a missing file,
       \* any command line (also one without a command)
-      writes == act.op = "print" /\ act.dest = "file" /\ act.name \in AllFiles
-      reads  == act.op \in {"getline_file", "operand"} /\ act.name \in AllFiles \cup Dirs
+      writes == act.op = "print" /\ act.dest = "file" /\ act.name \in AllFiles \cup LostFiles
+      reads  == act.op \in {"getline_file", "operand"} /\ act.name \in AllFiles \cup Dirs \cup LostFiles
   IN /\ (st.flags.ne /\ starts /\ ~last.busy) => st.denied
      /\ (st.flags.nw /\ writes /\ ~last.busy) => st.denied
      /\ (st.flags.nr /\ reads /\ ~last.busy) => st.denied
@@ -131,6 +136,14 @@ OperandKinds ==
   /\ (last.act.op = "operand" /\ last.act.name \in Dirs) =>
         /\ st.result = "error"
         /\ st.denied \/ (Len(st.opens) = last.no + 1 /\ st.opens[Len(st.opens)] = [name |-> last.act.name, mode |-> "read"])
+\* a name in a directory that does not exist: refused, or exactly one call of the open-file function; and whatever a
+\* run does, the file-system entries it creates are files it opened for writing through the open-file function
+LostFileKinds ==
+  (last.act.op \in {"print", "getline_file", "operand"} /\ last.act.name \in LostFiles) =>
+     /\ st.denied \/ (Len(st.opens) = last.no + 1 /\ st.opens[Len(st.opens)].name = last.act.name)
+     /\ last.act.op # "getline_file" => st.result = "error"
+CreatedAreOpened ==
+  \A n \in Prediction(st).created : \E k \in OpenModes({"trunc", "append"}) : st.opens[k].name = n
 \* within a run a file is used under one spelling
 OneSpelling == st.result = "run" => \A n \in Files : (st.outs[n].open \/ st.ins[n].open) => st.spell[n] # "none"
 
